@@ -57,7 +57,7 @@ theorem divCeil_small {a b : Nat} (h1 : 1 ≤ a) (h2 : a ≤ b) : divCeil a b = 
 
 theorem divCeil_zero (b : Nat) : divCeil 0 b = 0 := by simp [divCeil]
 
-theorem map_const_range (n x : Nat) : ((List.range n).map fun _ => x) = List.replicate n x := by
+theorem map_const_range {α} (n : Nat) (x : α) : ((List.range n).map fun _ => x) = List.replicate n x := by
   induction n with
   | zero => rfl
   | succ n ih => rw [List.range_succ, List.map_append, ih, List.replicate_succ']; rfl
@@ -677,5 +677,131 @@ theorem uncompressedUniversalT_eq {v : View} {c : Color} (hv : VOK v c) (hc : c.
   by_cases hcg : v.pitch = v.w * v.bpp
   · rw [if_pos hcg, if_pos hcg, hfun]
   · rw [if_neg hcg, if_neg hcg, hfun]
+
+/-! ## `uncompressed_universal_dither` -/
+
+theorem divCeil_mul_right (a b k : Nat) (hb : 1 ≤ b) (hk : 1 ≤ k) : divCeil (a * k) (b * k) = divCeil a b := by
+  have hbk : 1 ≤ b * k := Nat.mul_le_mul hb hk
+  rw [← chunkLens_length (b * k) hbk _ _ (Nat.le_refl _), chunkLens_scale b k hb hk _ _ (Nat.le_refl _),
+    List.length_map, chunkLens_length b hb _ _ (Nat.le_refl _)]
+
+theorem ditherProcessChunkT_eq {size prim p : Nat} (hs : size ≠ 0) (hp : prim = 1 ∨ size % prim = 0)
+    (hpl : p ≤ 4294967296) : ditherProcessChunkT size prim p (p * size) p (p + 2) = some () := by
+  have hto : toLeT prim (p * size) = some () := by
+    apply toLeT_of
+    rcases hp with h | h
+    · exact Or.inl h
+    · right; exact Nat.mod_eq_zero_of_dvd (Nat.dvd_trans (Nat.dvd_of_mod_eq_zero h) (Nat.dvd_mul_left _ _))
+  unfold ditherProcessChunkT
+  rw [TrapUnc.fromBytesT_of ⟨hs, Nat.mul_mod_left ..⟩, bind_some', Nat.mul_div_cancel _ (by omega)]
+  enc_simp [Nat.min_self]
+  rw [mapT_eq_some _ (fun _ => ()) _ (by
+    intro i hi
+    have hi : i < p := List.mem_range.mp hi
+    enc_simp [bind_some']), bind_some', hto]
+
+/-- the chunk loop of one row on the chunks `L` (pixels) that remain, `error_offset` pixels into the error lines -/
+theorem ditherRowT_eq {c : Color} (hc : c.OK) (aligned : Bool) {size prim bp eb E cnt cp : Nat} (hs : size ≠ 0)
+    (hp : prim = 1 ∨ size % prim = 0) (hcpb : cp ≤ bp) (hcpe : cp ≤ eb / size) (hbp : bp ≤ 4294967296)
+    (heb : eb < 18446744073709551616) (hE : E < 4611686018427387904) (hcnt : cnt < 18446744073709551616)
+    (hfr : SrcConsts.UNC_REPORT_FREQUENCY ≠ 0) :
+    ∀ (L : List Nat) (idx eo : Nat), (∀ q ∈ L, 1 ≤ q ∧ q ≤ cp) → 1 ≤ eo → eo + L.sum + 1 ≤ E → idx + L.length ≤ cnt →
+      ditherRowT c aligned size prim bp eb E E cnt (L.map (· * c.bpp)) idx eo =
+        some (L.map (· * size), idx + L.length) := by
+  have hb := c.bpp_pos hc
+  intro L
+  induction L with
+  | nil => intro idx eo _ _ _ _; simp [ditherRowT]
+  | cons q L ih =>
+    intro idx eo hq heo hsum hidx
+    have hq1 := hq q (List.mem_cons_self ..)
+    rw [List.sum_cons] at hsum
+    rw [List.length_cons] at hidx
+    have hih := ih (idx + 1) (eo + q) (fun x hx => hq x (List.mem_cons_of_mem _ hx)) (by omega) (by omega) (by omega)
+    have hmod : q * c.bpp % c.bpp = 0 := Nat.mul_mod_left ..
+    have hdiv : q * c.bpp / c.bpp = q := Nat.mul_div_cancel _ (by omega)
+    have hqs : q * size ≤ eb := mul_le_of_le_div (by omega)
+    have e1 : eo + q - eo = q := by omega
+    have e2 : eo + q + 1 - (eo - 1) = q + 2 := by omega
+    rw [List.map_cons]
+    unfold ditherRowT
+    rw [progT_of hfr (by omega) hcnt, bind_some']
+    enc_simp [hmod, hdiv, asRgbaF32T_eq hc, e1, e2, ditherProcessChunkT_eq hs hp, toLeT_of, hih, List.map_cons]
+    simp only [List.length_cons, Option.some.injEq, Prod.mk.injEq, true_and]
+    omega
+
+/-- all rows; both error lines have `E` elements, so the `swap` at the start of a row is invisible to the slicing -/
+theorem ditherRowsT_eq {c : Color} (hc : c.OK) (aligned : Bool) {size prim bp eb E cnt cp w pad : Nat} (hs : size ≠ 0)
+    (hp : prim = 1 ∨ size % prim = 0) (hcp : 1 ≤ cp) (hcpb : cp ≤ bp) (hcpe : cp ≤ eb / size)
+    (hbp : bp ≤ 4294967296) (heb : eb < 18446744073709551616) (hE : E < 4611686018427387904)
+    (hcnt : cnt < 18446744073709551616) (hfr : SrcConsts.UNC_REPORT_FREQUENCY ≠ 0)
+    (hpad : SrcConsts.DITHER_ERROR_PADDING = pad) (hpad1 : 1 ≤ pad) (hEw : w + 2 * pad = E) :
+    ∀ (n idx : Nat), idx + n * divCeil w cp ≤ cnt →
+      ditherRowsT c aligned size prim bp eb (cp * c.bpp) cnt (w * c.bpp) (List.replicate n (w * c.bpp)) idx E E =
+        some (List.replicate n ((chunkLens cp w w).map (· * size))).flatten := by
+  have hb := c.bpp_pos hc
+  intro n
+  induction n with
+  | zero => intro idx _; simp [ditherRowsT]
+  | succ n ih =>
+    intro idx hidx
+    have hlen := chunkLens_length cp hcp w w (Nat.le_refl _)
+    have hcs : cp * c.bpp ≠ 0 := by
+      have : 1 * 1 ≤ cp * c.bpp := Nat.mul_le_mul hcp hb.1
+      omega
+    rw [Nat.add_mul, Nat.one_mul] at hidx
+    rw [List.replicate_succ]
+    unfold ditherRowsT
+    rw [dbgP_of rfl, bind_some', chunksT_of_ne hcs, bind_some', chunkLens_scale cp c.bpp hcp hb.1 _ _ (Nat.le_refl _),
+      hpad, ditherRowT_eq hc aligned hs hp hcpb hcpe hbp heb hE hcnt hfr _ idx pad
+        (fun q hq => by have := chunkLens_le cp hcp _ _ q hq; omega) hpad1
+        (by rw [chunkLens_sum cp hcp _ _ (Nat.le_refl _)]; omega) (by rw [hlen]; omega),
+      bind_some', ih _ (by rw [hlen]; omega), bind_some', pure_some']
+    simp only [List.replicate_succ, List.flatten_cons]
+
+/-- **`uncompressed_universal_dither`** (uncompressed.rs:73) for an encoded pixel of `size` bytes, alignment `align`,
+built from a primitive of `prim` bytes: every row is cut into chunks of `min(BUFFER_PIXELS, bytes / size)` pixels;
+the two error lines are indexed inside their `width + 2·padding` elements — also for `width = 1` and `width = 0` -/
+theorem ditherT_eq {v : View} {c : Color} (hv : VOK v c) (hc : c.OK) (aligned : Bool) {size align prim : Nat}
+    (hs : 1 ≤ size ∧ size ≤ SrcConsts.DITHER_BUFFER_PIXELS * SrcConsts.DITHER_ENCODED_ELEM_BYTES)
+    (ha : align ≤ SrcConsts.DITHER_ENCODED_ELEM_BYTES) (hp : prim = 1 ∨ size % prim = 0)
+    (hbuf : 1 ≤ SrcConsts.DITHER_BUFFER_PIXELS ∧ SrcConsts.DITHER_BUFFER_PIXELS ≤ 65536 ∧
+      SrcConsts.DITHER_ENCODED_ELEM_BYTES ≤ 65536 ∧ 1 ≤ SrcConsts.DITHER_ERROR_PADDING ∧
+      SrcConsts.DITHER_ERROR_PADDING ≤ 65536)
+    (hfr : SrcConsts.UNC_REPORT_FREQUENCY ≠ 0) :
+    ditherT v c aligned size align prim =
+      some (chunksPerRow v.w v.h
+        (min SrcConsts.DITHER_BUFFER_PIXELS
+          (SrcConsts.DITHER_BUFFER_PIXELS * SrcConsts.DITHER_ENCODED_ELEM_BYTES / size)) size) := by
+  obtain ⟨hb1, hb2, he2, hp1, hp2⟩ := hbuf
+  have hb := c.bpp_pos hc
+  have hw := hv.inv.w_lt
+  have hh := hv.inv.h_lt
+  have hU : U32 = 4294967296 := rfl
+  generalize hBP : SrcConsts.DITHER_BUFFER_PIXELS = BP at *
+  generalize hEL : SrcConsts.DITHER_ENCODED_ELEM_BYTES = EL at *
+  generalize hPAD : SrcConsts.DITHER_ERROR_PADDING = pad at *
+  have hbe : BP * EL ≤ 65536 * 65536 := Nat.mul_le_mul hb2 he2
+  have hq : 1 ≤ BP * EL / size := (Nat.one_le_div_iff (by omega)).2 hs.2
+  generalize hcpd : min BP (BP * EL / size) = cp
+  have hcp1 : 1 ≤ cp := by rw [← hcpd, Nat.min_def]; split <;> omega
+  have hcpb : cp ≤ BP := by rw [← hcpd]; exact Nat.min_le_left _ _
+  have hcpe : cp ≤ BP * EL / size := by rw [← hcpd]; exact Nat.min_le_right _ _
+  have hcs : cp * c.bpp ≤ 65536 * 16 := Nat.mul_le_mul (by omega) hb.2
+  have hcs1 : 1 * 1 ≤ cp * c.bpp := Nat.mul_le_mul hcp1 hb.1
+  have hrow : v.w * c.bpp ≤ v.w * 16 := Nat.mul_le_mul_left _ hb.2
+  have hper : divCeil (v.w * c.bpp) (cp * c.bpp) = divCeil v.w cp := divCeil_mul_right _ _ _ hcp1 hb.1
+  have hperle : divCeil v.w cp ≤ v.w := divCeil_le_self _ _ hcp1
+  have hcnt : v.h * divCeil v.w cp ≤ 4294967295 * 4294967295 := Nat.mul_le_mul (by omega) (by omega)
+  unfold ditherT
+  simp only
+  simp only [hBP, hEL, hPAD]
+  rw [dbgP_of ha, bind_some']
+  enc_simp [hcpd, hper, rowsT_eq hv, hv.bpp]
+  have e1 : 2 * (v.w + pad * 2) - (v.w + pad * 2) = v.w + pad * 2 := by omega
+  rw [e1, ditherRowsT_eq (E := v.w + pad * 2) (w := v.w) (pad := pad) hc aligned (by omega) hp hcp1 hcpb hcpe (by omega) (by omega) (by omega) (by omega) hfr hPAD
+    hp1 (by omega) v.h 0 (by rw [Nat.zero_add, Nat.mul_comm]; exact Nat.le_refl _)]
+  unfold chunksPerRow
+  rw [map_const_range]
 
 end Dds.TrapEnc
